@@ -11,5 +11,5 @@ assert s.count(old) == 1, (s.count(old), old)
 open(p, "w").write(s.replace(old, new))
 PY
 [ $? -eq 0 ] || { echo "$name: MUTATION NOT APPLIED"; exit; }
-out=$(cd /tmp/probe && PYTHONPATH=/tmp/mutrun/tree:/tmp/probe timeout 600 /verif/.venv/bin/crosshair check --report_all --per_condition_timeout $to $probe 2>&1 | grep -E "error|info" | head -3)
+out=$(cd /verif/probes && PYTHONPATH=/tmp/mutrun/tree:/verif/probes timeout 600 /verif/.venv/bin/crosshair check --report_all --per_condition_timeout $to $probe 2>&1 | grep -E "error|info" | head -3)
 echo "== $name :: $probe"; echo "$out" | cut -c1-220
